@@ -119,6 +119,9 @@ NumCases == {
   Case(<<SetLogic("QF_LRA")>> \o Prelude \o <<Asrt(NumTerm)>>, "accept", "numeral-real-logic"),
   Case(<<SetLogic("QF_LRA")>> \o Prelude \o <<Asrt(Ap("<", <<Nm(1), r>>))>>, "accept", "numeral-real-logic-2"),
   Case(<<SetLogic("QF_LIA")>> \o Prelude \o <<Asrt(Ap("<=", <<SPlus(x, Nm(2)), Ap("*", <<Nm(3), y>>)>>))>>, "accept", "numeral-int-logic"),
+  \* numerals under a real logic are Reals: (/ (+ 1 2) 2) is 3/2, never an integer division
+  Case(<<SetLogic("QF_LRA")>> \o Prelude \o <<Asrt(Eq(r, Ap("/", <<SPlus(Nm(1), Nm(2)), Nm(2)>>)))>>, "accept", "numeral-real-logic-compound-division"),
+  Case(<<SetLogic("QF_LRA")>> \o Prelude \o <<Asrt(Lt(Ap("*", <<Nm(2), SPlus(Nm(1), Nm(2))>>), SPlus(r, Nm(1))))>>, "accept", "numeral-real-logic-compound"),
   Case(<<SetLogic("QF_LIRA")>> \o Prelude \o <<Asrt(Ap("<=", <<Ap("to_real", <<SPlus(x, Nm(2))>>), SPlus(r, Dc(15, 10))>>))>>, "accept", "numeral-mixed-logic"),
   One(Ap("<=", <<SPlus(r, Dc(25, 10)), Ap("*", <<Dc(5, 10), u>>)>>), "decimals"),
   One(Ap("<", <<Ap("/", <<Nm(1), Nm(3)>>), r>>), "rational-constant"),
